@@ -192,7 +192,14 @@ func genTier(seed int64, n int) []tierSpec {
 	for len(out) < n {
 		i := len(out)
 		nm := 2 + rng.Intn(3)
-		switch i % 8 {
+		switch i % 9 {
+		case 8: // the download completes while a slow, failing announce is in flight: the cancelled call and "completed" overlap on one member
+			pats := make([]string, nm)
+			for j := range pats {
+				pats[j] = "TTTTTTTTTTTTO"
+			}
+			evs := []tev{{atMs: 250 + rng.Intn(900), op: "complete"}}
+			add(tierSpec{kind: "overlap", pats: pats, need: true, evs: evs, durMs: 6000, minAn: nm + 6})
 		case 0: // everybody fails for more than three full cycles, then one member starts answering
 			pats := make([]string, nm)
 			up := rng.Intn(nm)
@@ -707,6 +714,8 @@ func main() {
 	nSess := flag.Int("nsess", 0, "session-level tier scenarios (slow: real back-off)")
 	nFuzz := flag.Int("nfuzz", 40, "random reply mutations per transport (in addition to the fixed tables)")
 	par := flag.Int("par", 12, "")
+	tcDepth := flag.Int("tcdepth", 6, "depth of the enumerated tier-level concurrent histories (2 lanes; 0 = none)")
+	tcDepth3 := flag.Int("tcdepth3", 0, "depth of the 3-lane histories (0 = none)")
 	root := flag.String("root", "", "scratch directory")
 	from := flag.Int("from", 0, "")
 	to := flag.Int("to", 0, "")
@@ -800,6 +809,12 @@ func main() {
 			}
 		}
 		f.Close()
+	}
+	if *tcDepth > 0 {
+		goRun(func() *annh.Sc { return runTierConc("tierconc2", 2, *tcDepth, []int{2, 3}) })
+	}
+	if *tcDepth3 > 0 {
+		goRun(func() *annh.Sc { return runTierConc("tierconc3", 3, *tcDepth3, []int{2, 3}) })
 	}
 	wg.Wait()
 	scs = append(scs, fz)
